@@ -126,22 +126,42 @@ theorem pArgsMore_mono {f f' c ts r} (hle : f ≤ f') (h : pArgsMore f c ts = so
   le_of_some (p := fun f => pArgsMore f c ts) (fun f => (mono f).argsMore c ts) hle h
 
 
-/-! ### parsing with some amount of fuel -/
+/-! ### parsing within a fuel budget -/
 
-def PE (m : Nat) (ts : List STok) (t : SqlTree) (r : List STok) : Prop := ∃ f, pExpr f m ts = some (t, r)
-def PBL (m : Nat) (l : SqlTree) (ts : List STok) (t : SqlTree) (r : List STok) : Prop := ∃ f, pBinLoop f m l ts = some (t, r)
-def PU (ts : List STok) (t : SqlTree) (r : List STok) : Prop := ∃ f, pUnary f ts = some (t, r)
-def PL (c : SqlTree) (ts : List STok) (t : SqlTree) (r : List STok) : Prop := ∃ f, pPostLoop f c ts = some (t, r)
-def PP (ts : List STok) (t : SqlTree) (r : List STok) : Prop := ∃ f, pPrimary f ts = some (t, r)
-def PA (close : Str) (ts : List STok) (as : List SqlTree) (r : List STok) : Prop := ∃ f, pArgs f close ts = some (as, r)
-def PAM (close : Str) (ts : List STok) (as : List SqlTree) (r : List STok) : Prop := ∃ f, pArgsMore f close ts = some (as, r)
+/-- `p` answers `r` with some fuel `≤ n` (hence with every fuel `≥ n`) -/
+def Within {α : Type} (p : Nat → Option α) (n : Nat) (r : α) : Prop := ∃ f, f ≤ n ∧ p f = some r
 
-theorem PE.mk {m ts t r1 t' r2} (hu : PU ts t r1) (hb : PBL m t r1 t' r2) : PE m ts t' r2 := by
-  obtain ⟨f1, h1⟩ := hu; obtain ⟨f2, h2⟩ := hb
-  refine ⟨max f1 f2 + 1, ?_⟩
+theorem Within.le {α : Type} {p : Nat → Option α} {n n' : Nat} {r : α} (h : Within p n r) (hle : n ≤ n') : Within p n' r := by
+  obtain ⟨f, hf, h⟩ := h; exact ⟨f, by omega, h⟩
+
+def PE (n m : Nat) (ts : List STok) (t : SqlTree) (r : List STok) : Prop := Within (fun f => pExpr f m ts) n (t, r)
+def PBL (n m : Nat) (l : SqlTree) (ts : List STok) (t : SqlTree) (r : List STok) : Prop := Within (fun f => pBinLoop f m l ts) n (t, r)
+def PU (n : Nat) (ts : List STok) (t : SqlTree) (r : List STok) : Prop := Within (fun f => pUnary f ts) n (t, r)
+def PL (n : Nat) (c : SqlTree) (ts : List STok) (t : SqlTree) (r : List STok) : Prop := Within (fun f => pPostLoop f c ts) n (t, r)
+def PP (n : Nat) (ts : List STok) (t : SqlTree) (r : List STok) : Prop := Within (fun f => pPrimary f ts) n (t, r)
+def PA (n : Nat) (close : Str) (ts : List STok) (as : List SqlTree) (r : List STok) : Prop := Within (fun f => pArgs f close ts) n (as, r)
+def PAM (n : Nat) (close : Str) (ts : List STok) (as : List SqlTree) (r : List STok) : Prop := Within (fun f => pArgsMore f close ts) n (as, r)
+
+theorem PE.at {n m ts t r} (h : PE n m ts t r) : pExpr n m ts = some (t, r) := by
+  obtain ⟨f, hf, h⟩ := h; exact pExpr_mono hf h
+theorem PBL.at {n m l ts t r} (h : PBL n m l ts t r) : pBinLoop n m l ts = some (t, r) := by
+  obtain ⟨f, hf, h⟩ := h; exact pBinLoop_mono hf h
+theorem PU.at {n ts t r} (h : PU n ts t r) : pUnary n ts = some (t, r) := by
+  obtain ⟨f, hf, h⟩ := h; exact pUnary_mono hf h
+theorem PL.at {n c ts t r} (h : PL n c ts t r) : pPostLoop n c ts = some (t, r) := by
+  obtain ⟨f, hf, h⟩ := h; exact pPostLoop_mono hf h
+theorem PP.at {n ts t r} (h : PP n ts t r) : pPrimary n ts = some (t, r) := by
+  obtain ⟨f, hf, h⟩ := h; exact pPrimary_mono hf h
+theorem PA.at {n c ts as r} (h : PA n c ts as r) : pArgs n c ts = some (as, r) := by
+  obtain ⟨f, hf, h⟩ := h; exact pArgs_mono hf h
+theorem PAM.at {n c ts as r} (h : PAM n c ts as r) : pArgsMore n c ts = some (as, r) := by
+  obtain ⟨f, hf, h⟩ := h; exact pArgsMore_mono hf h
+
+theorem PE.mk {n1 n2 m ts t r1 t' r2} (hu : PU n1 ts t r1) (hb : PBL n2 m t r1 t' r2) : PE (n1 + n2 + 1) m ts t' r2 := by
+  refine ⟨n1 + n2 + 1, Nat.le_refl _, ?_⟩
   simp only [pExpr]
-  rw [pUnary_mono (Nat.le_max_left f1 f2) h1]
-  simpa using pBinLoop_mono (Nat.le_max_right f1 f2) h2
+  rw [pUnary_mono (by omega) hu.at]
+  simpa using pBinLoop_mono (by omega) hb.at
 
 def isPostStart (t : STok) : Bool := t == .sym [':', ':'] || t == .sym ['['] || t == .sym ['(']
 
@@ -150,8 +170,8 @@ def NoPost (ts : List STok) : Prop := ∀ t r, ts = t :: r → isPostStart t = f
 /-- the next token is not a binary operator -/
 def NoBin (ts : List STok) : Prop := ∀ t r, ts = t :: r → binop t = none
 
-theorem PL.stop {c ts} (h : NoPost ts) : PL c ts c ts := by
-  refine ⟨1, ?_⟩
+theorem PL.stop {c ts} (h : NoPost ts) : PL 1 c ts c ts := by
+  refine ⟨1, Nat.le_refl _, ?_⟩
   cases ts with
   | nil => simp [pPostLoop]
   | cons t r =>
@@ -162,27 +182,25 @@ theorem PL.stop {c ts} (h : NoPost ts) : PL c ts c ts := by
       simp [pPostLoop, this.1.1, this.1.2, this.2]
     | _ => simp [pPostLoop]
 
-theorem PBL.stop {m l ts} (h : NoBin ts) : PBL m l ts l ts := by
-  refine ⟨1, ?_⟩
+theorem PBL.stop {m l ts} (h : NoBin ts) : PBL 1 m l ts l ts := by
+  refine ⟨1, Nat.le_refl _, ?_⟩
   cases ts with
   | nil => simp [pBinLoop]
   | cons t r => simp [pBinLoop, h t r rfl]
 
-theorem PBL.step {m l t ts p name rhs r1 t' r2} (hop : binop t = some (p, name)) (hp : ¬ p < m)
-    (he : PE (p + 1) ts rhs r1) (hb : PBL m (.bin name l rhs) r1 t' r2) : PBL m l (t :: ts) t' r2 := by
-  obtain ⟨f1, h1⟩ := he; obtain ⟨f2, h2⟩ := hb
-  refine ⟨max f1 f2 + 1, ?_⟩
+theorem PBL.step {n1 n2 m l t ts p name rhs r1 t' r2} (hop : binop t = some (p, name)) (hp : ¬ p < m)
+    (he : PE n1 (p + 1) ts rhs r1) (hb : PBL n2 m (.bin name l rhs) r1 t' r2) : PBL (n1 + n2 + 1) m l (t :: ts) t' r2 := by
+  refine ⟨n1 + n2 + 1, Nat.le_refl _, ?_⟩
   simp only [pBinLoop, hop, hp, if_false]
-  rw [pExpr_mono (Nat.le_max_left f1 f2) h1]
-  simpa using pBinLoop_mono (Nat.le_max_right f1 f2) h2
+  rw [pExpr_mono (by omega) he.at]
+  simpa using pBinLoop_mono (by omega) hb.at
 
 /-- a primary followed by its postfix chain, when the text does not start with a prefix operator -/
-theorem PU.mk {ts p r1 t r2} (hp : PP ts p r1) (hl : PL p r1 t r2)
-    (hh : ∀ s r, ts = .sym s :: r → isPrefixOp s = false) : PU ts t r2 := by
-  obtain ⟨f1, h1⟩ := hp; obtain ⟨f2, h2⟩ := hl
-  refine ⟨max f1 f2 + 1, ?_⟩
-  have e1 := pPrimary_mono (Nat.le_max_left f1 f2) h1
-  have e2 := pPostLoop_mono (Nat.le_max_right f1 f2) h2
+theorem PU.mk {n1 n2 ts p r1 t r2} (hp : PP n1 ts p r1) (hl : PL n2 p r1 t r2)
+    (hh : ∀ s r, ts = .sym s :: r → isPrefixOp s = false) : PU (n1 + n2 + 1) ts t r2 := by
+  refine ⟨n1 + n2 + 1, Nat.le_refl _, ?_⟩
+  have e1 : pPrimary (n1 + n2) ts = some (p, r1) := pPrimary_mono (by omega) hp.at
+  have e2 : pPostLoop (n1 + n2) p r1 = some (t, r2) := pPostLoop_mono (by omega) hl.at
   cases ts with
   | nil => simp only [pUnary]; rw [e1]; simpa using e2
   | cons t0 r0 =>
@@ -191,35 +209,29 @@ theorem PU.mk {ts p r1 t r2} (hp : PP ts p r1) (hl : PL p r1 t r2)
       simp only [pUnary, hh s r0 rfl, Bool.false_eq_true, if_false]; rw [e1]; simpa using e2
     | _ => simp only [pUnary]; rw [e1]; simpa using e2
 
-theorem PU.prefix {s ts t r} (hs : isPrefixOp s = true) (h : PU ts t r) : PU (.sym s :: ts) (.un s t) r := by
-  obtain ⟨f, h⟩ := h
-  exact ⟨f + 1, by simp [pUnary, hs, h]⟩
+theorem PU.prefix {n s ts t r} (hs : isPrefixOp s = true) (h : PU n ts t r) : PU (n + 1) (.sym s :: ts) (.un s t) r :=
+  ⟨n + 1, Nat.le_refl _, by simp [pUnary, hs, h.at]⟩
 
-theorem PP.parens {ts t r} (h : PE 0 ts t (.sym [')'] :: r)) : PP (.sym ['('] :: ts) t r := by
-  obtain ⟨f, h⟩ := h
-  exact ⟨f + 1, by simp [pPrimary, h, expectSym]⟩
+theorem PP.parens {n ts t r} (h : PE n 0 ts t (.sym [')'] :: r)) : PP (n + 1) (.sym ['('] :: ts) t r :=
+  ⟨n + 1, Nat.le_refl _, by simp [pPrimary, h.at, expectSym]⟩
 
-theorem PL.cast {c ts ty r t r'} (ht : pType ts = some (ty, r)) (hb : bracketNext r = false)
-    (h : PL (.cast c ty) r t r') : PL c (.sym [':', ':'] :: ts) t r' := by
-  obtain ⟨f, h⟩ := h
-  exact ⟨f + 1, by simp [pPostLoop, ht, hb, h]⟩
+theorem PL.cast {n c ts ty r t r'} (ht : pType ts = some (ty, r)) (hb : bracketNext r = false)
+    (h : PL n (.cast c ty) r t r') : PL (n + 1) c (.sym [':', ':'] :: ts) t r' :=
+  ⟨n + 1, Nat.le_refl _, by simp [pPostLoop, ht, hb, h.at]⟩
 
-theorem PL.index {c ts i r t r'} (he : PE 0 ts i (.sym [']'] :: r)) (h : PL (.index c i) r t r') :
-    PL c (.sym ['['] :: ts) t r' := by
-  obtain ⟨f1, h1⟩ := he; obtain ⟨f2, h2⟩ := h
-  refine ⟨max f1 f2 + 1, ?_⟩
-  have e1 := pExpr_mono (Nat.le_max_left f1 f2) h1
-  have e2 := pPostLoop_mono (Nat.le_max_right f1 f2) h2
+theorem PL.index {n1 n2 c ts i r t r'} (he : PE n1 0 ts i (.sym [']'] :: r)) (h : PL n2 (.index c i) r t r') :
+    PL (n1 + n2 + 1) c (.sym ['['] :: ts) t r' := by
+  refine ⟨n1 + n2 + 1, Nat.le_refl _, ?_⟩
+  have e1 : pExpr (n1 + n2) 0 ts = some (i, .sym [']'] :: r) := pExpr_mono (by omega) he.at
+  have e2 : pPostLoop (n1 + n2) (.index c i) r = some (t, r') := pPostLoop_mono (by omega) h.at
   simp [pPostLoop, e1, expectSym, e2]
 
-theorem PL.call {c ts as r t r'} (ha : PA [')'] ts as r) (h : PL (.call c as) r t r') :
-    PL c (.sym ['('] :: ts) t r' := by
-  obtain ⟨f1, h1⟩ := ha; obtain ⟨f2, h2⟩ := h
-  refine ⟨max f1 f2 + 1, ?_⟩
-  have e1 := pArgs_mono (Nat.le_max_left f1 f2) h1
-  have e2 := pPostLoop_mono (Nat.le_max_right f1 f2) h2
+theorem PL.call {n1 n2 c ts as r t r'} (ha : PA n1 [')'] ts as r) (h : PL n2 (.call c as) r t r') :
+    PL (n1 + n2 + 1) c (.sym ['('] :: ts) t r' := by
+  refine ⟨n1 + n2 + 1, Nat.le_refl _, ?_⟩
+  have e1 : pArgs (n1 + n2) [')'] ts = some (as, r) := pArgs_mono (by omega) ha.at
+  have e2 : pPostLoop (n1 + n2) (.call c as) r = some (t, r') := pPostLoop_mono (by omega) h.at
   simp [pPostLoop, e1, e2]
-
 
 /-! ### the tokens that end an expression -/
 
@@ -253,7 +265,7 @@ theorem Stop.noBracket {ts} (h : Stop ts) : bracketNext ts = false := by
   | cons t r => rcases stop_cases (h t r rfl) with rfl | rfl | rfl | rfl | rfl | rfl | rfl <;> rfl
 
 /-- an expression that is a postfix chain, followed by a stop -/
-theorem PE.ofUnary {m ts t r} (hu : PU ts t r) (hs : Stop r) : PE m ts t r := PE.mk hu (PBL.stop hs.noBin)
+theorem PE.ofUnary {n m ts t r} (hu : PU n ts t r) (hs : Stop r) : PE (n + 2) m ts t r := PE.mk hu (PBL.stop hs.noBin)
 
 /-! ### operators, types, keywords -/
 
@@ -285,8 +297,8 @@ theorem kw_of_not_reserved {s k : Str} (h : isReserved s = false) (hk : k ∈ re
     rw [h] at this; cases this
 
 /-- a name that is not reserved is read as a name -/
-theorem PP.ident {name : Str} (h : isReserved name = false) (r : List STok) : PP (.word name :: r) (.ident name) r := by
-  refine ⟨1, ?_⟩
+theorem PP.ident {name : Str} (h : isReserved name = false) (r : List STok) : PP 1 (.word name :: r) (.ident name) r := by
+  refine ⟨1, Nat.le_refl _, ?_⟩
   simp [pPrimary, kw_of_not_reserved h (k := ['n', 'u', 'l', 'l']) (by decide),
     kw_of_not_reserved h (k := ['t', 'r', 'u', 'e']) (by decide),
     kw_of_not_reserved h (k := ['f', 'a', 'l', 's', 'e']) (by decide),
@@ -296,37 +308,31 @@ theorem PP.ident {name : Str} (h : isReserved name = false) (r : List STok) : PP
 
 /-! ### argument lists, `case`, `ARRAY` -/
 
-theorem PAM.last {close ts e r} (h : PE 0 ts e (.sym close :: r)) : PAM close ts [e] r := by
-  obtain ⟨f, h⟩ := h
-  exact ⟨f + 1, by simp [pArgsMore, h, expectSym]⟩
+theorem PAM.last {n close ts e r} (h : PE n 0 ts e (.sym close :: r)) : PAM (n + 1) close ts [e] r :=
+  ⟨n + 1, Nat.le_refl _, by simp [pArgsMore, h.at, expectSym]⟩
 
-theorem PAM.cons {close ts e r1 es r} (h : PE 0 ts e (.sym [','] :: r1)) (hc : close ≠ [','])
-    (hm : PAM close r1 es r) : PAM close ts (e :: es) r := by
-  obtain ⟨f1, h1⟩ := h; obtain ⟨f2, h2⟩ := hm
-  refine ⟨max f1 f2 + 1, ?_⟩
-  have e1 := pExpr_mono (Nat.le_max_left f1 f2) h1
-  have e2 := pArgsMore_mono (Nat.le_max_right f1 f2) h2
+theorem PAM.cons {n1 n2 close ts e r1 es r} (h : PE n1 0 ts e (.sym [','] :: r1)) (hc : close ≠ [','])
+    (hm : PAM n2 close r1 es r) : PAM (n1 + n2 + 1) close ts (e :: es) r := by
+  refine ⟨n1 + n2 + 1, Nat.le_refl _, ?_⟩
+  have e1 : pExpr (n1 + n2) 0 ts = some (e, .sym [','] :: r1) := pExpr_mono (by omega) h.at
+  have e2 : pArgsMore (n1 + n2) close r1 = some (es, r) := pArgsMore_mono (by omega) hm.at
   have hc' : ¬ ([','] : Str) = close := fun e => hc e.symm
   simp [pArgsMore, e1, expectSym, hc', e2]
 
-theorem PA.nil {close r} : PA close (.sym close :: r) [] r := ⟨1, by simp [pArgs, expectSym]⟩
+theorem PA.nil {close r} : PA 1 close (.sym close :: r) [] r := ⟨1, Nat.le_refl _, by simp [pArgs, expectSym]⟩
 
-theorem PA.more {close ts as r} (hn : expectSym close ts = none) (h : PAM close ts as r) : PA close ts as r := by
-  obtain ⟨f, h⟩ := h
-  exact ⟨f + 1, by simp [pArgs, hn, h]⟩
+theorem PA.more {n close ts as r} (hn : expectSym close ts = none) (h : PAM n close ts as r) : PA (n + 1) close ts as r :=
+  ⟨n + 1, Nat.le_refl _, by simp [pArgs, hn, h.at]⟩
 
-theorem PP.case_ {ts a r1 b r2 c r3 d r4}
-    (ha : PE 0 ts a (.word ['w', 'h', 'e', 'n'] :: r1)) (hb : PE 0 r1 b (.word ['t', 'h', 'e', 'n'] :: r2))
-    (hc : PE 0 r2 c (.word ['e', 'l', 's', 'e'] :: r3)) (hd : PE 0 r3 d (.word ['e', 'n', 'd'] :: r4)) :
-    PP (.word ['c', 'a', 's', 'e'] :: ts) (.case_ a b c d) r4 := by
-  obtain ⟨f1, h1⟩ := ha; obtain ⟨f2, h2⟩ := hb; obtain ⟨f3, h3⟩ := hc; obtain ⟨f4, h4⟩ := hd
-  obtain ⟨F, hF1, hF2, hF3, hF4⟩ : ∃ F, f1 ≤ F ∧ f2 ≤ F ∧ f3 ≤ F ∧ f4 ≤ F :=
-    ⟨f1 + f2 + f3 + f4, by omega, by omega, by omega, by omega⟩
-  refine ⟨F + 1, ?_⟩
-  have e1 := pExpr_mono hF1 h1
-  have e2 := pExpr_mono hF2 h2
-  have e3 := pExpr_mono hF3 h3
-  have e4 := pExpr_mono hF4 h4
+theorem PP.case_ {n1 n2 n3 n4 ts a r1 b r2 c r3 d r4}
+    (ha : PE n1 0 ts a (.word ['w', 'h', 'e', 'n'] :: r1)) (hb : PE n2 0 r1 b (.word ['t', 'h', 'e', 'n'] :: r2))
+    (hc : PE n3 0 r2 c (.word ['e', 'l', 's', 'e'] :: r3)) (hd : PE n4 0 r3 d (.word ['e', 'n', 'd'] :: r4)) :
+    PP (n1 + n2 + n3 + n4 + 1) (.word ['c', 'a', 's', 'e'] :: ts) (.case_ a b c d) r4 := by
+  refine ⟨n1 + n2 + n3 + n4 + 1, Nat.le_refl _, ?_⟩
+  have e1 : pExpr (n1 + n2 + n3 + n4) 0 ts = _ := pExpr_mono (by omega) ha.at
+  have e2 : pExpr (n1 + n2 + n3 + n4) 0 r1 = _ := pExpr_mono (by omega) hb.at
+  have e3 : pExpr (n1 + n2 + n3 + n4) 0 r2 = _ := pExpr_mono (by omega) hc.at
+  have e4 : pExpr (n1 + n2 + n3 + n4) 0 r3 = _ := pExpr_mono (by omega) hd.at
   have k1 : kw ['c', 'a', 's', 'e'] ['n', 'u', 'l', 'l'] = false := by decide
   have k2 : kw ['c', 'a', 's', 'e'] ['t', 'r', 'u', 'e'] = false := by decide
   have k3 : kw ['c', 'a', 's', 'e'] ['f', 'a', 'l', 's', 'e'] = false := by decide
@@ -338,13 +344,16 @@ theorem PP.case_ {ts a r1 b r2 c r3 d r4}
   have w4 : kw ['e', 'n', 'd'] ['e', 'n', 'd'] = true := by decide
   simp [pPrimary, k1, k2, k3, k4, k5, e1, e2, e3, e4, expectKw, w1, w2, w3, w4]
 
-theorem PP.array {ts as r} (h : PA [']'] ts as r) : PP (.word ['A', 'R', 'R', 'A', 'Y'] :: .sym ['['] :: ts) (.array as) r := by
-  obtain ⟨f, h⟩ := h
+theorem PP.array {n ts as r} (h : PA n [']'] ts as r) :
+    PP (n + 1) (.word ['A', 'R', 'R', 'A', 'Y'] :: .sym ['['] :: ts) (.array as) r := by
   have k1 : kw ['A', 'R', 'R', 'A', 'Y'] ['n', 'u', 'l', 'l'] = false := by decide
   have k2 : kw ['A', 'R', 'R', 'A', 'Y'] ['t', 'r', 'u', 'e'] = false := by decide
   have k3 : kw ['A', 'R', 'R', 'A', 'Y'] ['f', 'a', 'l', 's', 'e'] = false := by decide
   have k4 : kw ['A', 'R', 'R', 'A', 'Y'] ['a', 'r', 'r', 'a', 'y'] = true := by decide
-  exact ⟨f + 1, by simp [pPrimary, k1, k2, k3, k4, expectSym, h]⟩
+  exact ⟨n + 1, Nat.le_refl _, by simp [pPrimary, k1, k2, k3, k4, expectSym, h.at]⟩
+
+/-- a one-token primary -/
+theorem PP.one {ts t r} (h : pPrimary 1 ts = some (t, r)) : PP 1 ts t r := ⟨1, Nat.le_refl _, h⟩
 
 /-! ### the first token of a token list -/
 
